@@ -854,7 +854,7 @@ def tok_fuzz(r):
         for _ in range(r.choice([1, 1, 2, 3])):
             k = r.randrange(len(toks) + 1)
             mut = r.choice(["reboot", "check", "check2", "unsup", "star", "del", "dup", "emptyload", "instrs", "crc",
-                            "cont", "loadstr", "weirdlines", "select_bad", "nointf"])
+                            "cont", "loadstr", "weirdlines", "select_bad", "nointf", "strparam", "strparam"])
             if mut == "reboot":
                 toks.insert(k, ("REBOOT", r.choice([{}, ""])))
             elif mut == "check":
@@ -889,6 +889,9 @@ def tok_fuzz(r):
                 toks.insert(k, ("load", weird_lines(r)[1] or [line_of(0, 0x35, b"\x03\x00\x00A")]))
             elif mut == "select_bad":
                 toks.insert(k, ("SELECT", {"FILTER": r.choice(["01 02 00 9B 00 9C", "zz", "01 01 00", "02 01 00 9B", ""])}))
+            elif mut == "strparam":
+                # a "##" header named like an instruction: a string where a parameter dict is expected
+                toks.insert(k, (r.choice(["SELECT", "CHECK_FWVER", "SELECT_IF"]), r.choice(["abc", "x", "", "*"])))
             elif mut == "nointf":
                 toks = [t for t in toks if t[0] != "SELECT_IF"]
     elif style == "random_instrs":
@@ -948,7 +951,9 @@ def text_fuzz(r, text):
         lines.insert(k, r.choice(["##", "##:", "##A", "##A:B:C", "## A : B ", "##A:", "##Creator:\ttool\x1f ", "##REBOOT:",
                                   "##Bf3Update:1", "###x:y", "##CRC: 0x0000BEEF", "##CRC:0xBEEF", "##SELECT: text",
                                   "##load: x", "##load:", "##load", "## load: x", "##Load: x", "##load:x:y",
-                                  "##CRC: 0x1FFFFFFFF", "##CRC: 0x-1", "##Firmware: 70000 DE ZBA   1.02.03"]))
+                                  "##CRC: 0x1FFFFFFFF", "##CRC: 0x-1", "##Firmware: 70000 DE ZBA   1.02.03",
+                                  "##SELECT: abc", "##CHECK_FWVER: x", "##SELECT_IF: x", "##SELECT_IF: *", "##SELECT:",
+                                  "#>Creator A=b", "#>Firmware X=1", "#>CRC A=0x10", "#>Bf3Update"]))
     elif mut == "nocolon":
         lines.insert(k, r.choice(["0000FE00", " :0000FF00", "#:", "# > REBOOT", "#", ""]))
     elif mut == "twocolon" and lines[k].startswith(":"):
